@@ -8,33 +8,289 @@ namespace SH.Norm
 /-- Unicode scalar value: what utf8.DecodeRune can return and utf8.EncodeRune encodes faithfully -/
 def Scalar (r : Nat) : Prop := r < 0x110000 ∧ ¬ (0xD800 ≤ r ∧ r ≤ 0xDFFF)
 
+private theorem byte_toNat (n : Nat) (h : n < 256) : (byte n).toNat = n := by
+  simp [byte, UInt8.toNat_ofNat']
+  omega
+
+private theorem byte_eq (n : Nat) (b : UInt8) (h : b.toNat = n) : byte n = b := by
+  subst h; simp [byte]
+
 theorem decode_ascii (c : UInt8) (rest : List UInt8) (h : c.toNat < 0x80) : decodeRune (c :: rest) = (c.toNat, 1) := by
-  sorry
+  simp [decodeRune, h]
+
+private theorem dec2_width (x : Nat) (l : List UInt8) : 1 ≤ (dec2 x l).2 ∧ (dec2 x l).2 ≤ l.length + 1 := by
+  unfold dec2
+  split
+  · split <;> simp
+  · simp
+
+private theorem dec3_width (x : Nat) (l : List UInt8) : 1 ≤ (dec3 x l).2 ∧ (dec3 x l).2 ≤ l.length + 1 := by
+  unfold dec3
+  split
+  · split <;> simp
+  · simp
+
+private theorem dec4_width (x : Nat) (l : List UInt8) : 1 ≤ (dec4 x l).2 ∧ (dec4 x l).2 ≤ l.length + 1 := by
+  unfold dec4
+  split
+  · split <;> simp
+  · simp
 
 theorem decode_width (c : UInt8) (rest : List UInt8) :
     1 ≤ (decodeRune (c :: rest)).2 ∧ (decodeRune (c :: rest)).2 ≤ (c :: rest).length := by
-  sorry
+  have h2 := dec2_width c.toNat rest
+  have h3 := dec3_width c.toNat rest
+  have h4 := dec4_width c.toNat rest
+  simp only [decodeRune, List.length_cons]
+  split
+  · simp
+  split
+  · simp
+  split
+  · exact h2
+  split
+  · exact h3
+  split
+  · exact h4
+  · simp
+
+private theorem isCont_iff (b : UInt8) : isCont b = true ↔ 0x80 ≤ b.toNat ∧ b.toNat ≤ 0xBF := by
+  simp [isCont]
+
+private theorem dec2_scalar (x : Nat) (hx1 : 0xC2 ≤ x) (hx2 : x < 0xE0) (l : List UInt8) : Scalar (dec2 x l).1 := by
+  unfold dec2
+  split
+  · rename_i b1 _
+    split
+    · rename_i hok
+      simp only [ok2, isCont_iff] at hok
+      simp only [Scalar]
+      omega
+    · simp [Scalar, runeError]
+  · simp [Scalar, runeError]
+
+private theorem ok3_iff (x : Nat) (b1 b2 : UInt8) : ok3 x b1 b2 = true ↔
+    (lo3 x ≤ b1.toNat ∧ b1.toNat ≤ hi3 x) ∧ 0x80 ≤ b2.toNat ∧ b2.toNat ≤ 0xBF := by
+  simp [ok3, isCont]
+
+private theorem ok4_iff (x : Nat) (b1 b2 b3 : UInt8) : ok4 x b1 b2 b3 = true ↔
+    ((lo4 x ≤ b1.toNat ∧ b1.toNat ≤ hi4 x) ∧ 0x80 ≤ b2.toNat ∧ b2.toNat ≤ 0xBF) ∧ 0x80 ≤ b3.toNat ∧ b3.toNat ≤ 0xBF := by
+  simp [ok4, isCont]
+
+private theorem dec3_scalar (x : Nat) (hx1 : 0xE0 ≤ x) (hx2 : x < 0xF0) (l : List UInt8) : Scalar (dec3 x l).1 := by
+  unfold dec3
+  split
+  · rename_i b1 b2 _
+    split
+    · rename_i hok
+      simp only [ok3_iff, lo3, hi3] at hok
+      simp only [Scalar]
+      split at hok <;> split at hok <;> omega
+    · simp [Scalar, runeError]
+  · simp [Scalar, runeError]
+
+private theorem dec4_scalar (x : Nat) (hx1 : 0xF0 ≤ x) (hx2 : x < 0xF5) (l : List UInt8) : Scalar (dec4 x l).1 := by
+  unfold dec4
+  split
+  · rename_i b1 b2 b3 _
+    split
+    · rename_i hok
+      simp only [ok4_iff, lo4, hi4] at hok
+      simp only [Scalar]
+      split at hok <;> split at hok <;> omega
+    · simp [Scalar, runeError]
+  · simp [Scalar, runeError]
 
 theorem decode_scalar (s : List UInt8) : Scalar (decodeRune s).1 := by
-  sorry
+  cases s with
+  | nil => simp [decodeRune, Scalar, runeError]
+  | cons c rest =>
+    simp only [decodeRune]
+    split
+    · simp only [Scalar]; omega
+    split
+    · simp [Scalar, runeError]
+    split
+    · exact dec2_scalar _ (by omega) (by omega) _
+    split
+    · exact dec3_scalar _ (by omega) (by omega) _
+    split
+    · exact dec4_scalar _ (by omega) (by omega) _
+    · simp [Scalar, runeError]
 
 theorem encode_ascii (r : Nat) (h : r < 0x80) : encodeRune r = [UInt8.ofNat r] := by
-  sorry
+  simp [encodeRune, h, byte]
 
 theorem encode_first_high (r : Nat) (h : 0x80 ≤ r) : ∃ b bs, encodeRune r = b :: bs ∧ 0xC2 ≤ b.toNat := by
-  sorry
+  unfold encodeRune
+  rw [if_neg (by omega)]
+  split
+  · exact ⟨_, _, rfl, by rw [byte_toNat _ (by omega)]; omega⟩
+  split
+  · exact ⟨_, _, rfl, by decide⟩
+  · rename_i h1 h2
+    simp only [Bool.or_eq_true, decide_eq_true_eq, not_or] at h2
+    split
+    · exact ⟨_, _, rfl, by rw [byte_toNat _ (by omega)]; omega⟩
+    · exact ⟨_, _, rfl, by rw [byte_toNat _ (by omega)]; omega⟩
 
 theorem encode_length (r : Nat) : 1 ≤ (encodeRune r).length ∧ (encodeRune r).length ≤ 4 := by
-  sorry
+  unfold encodeRune
+  split
+  · simp
+  split
+  · simp
+  split
+  · simp
+  split <;> simp
 
 /-- decoding what was encoded gives the rune back, whatever follows -/
 theorem decode_encode (r : Nat) (h : Scalar r) (tail : List UInt8) :
     decodeRune (encodeRune r ++ tail) = (r, (encodeRune r).length) := by
-  sorry
+  obtain ⟨hlt, hns⟩ := h
+  unfold encodeRune
+  split
+  · rename_i h0
+    have e0 := byte_toNat r (by omega)
+    simp only [List.cons_append, List.nil_append, decodeRune, e0, if_pos h0, List.length_cons, List.length_nil]
+  split
+  · rename_i h0 h1
+    have e0 := byte_toNat (0xC0 + r / 64) (by omega)
+    have e1 := byte_toNat (0x80 + r % 64) (by omega)
+    have hok : ok2 (byte (0x80 + r % 64)) = true := by
+      simp only [ok2, isCont_iff, e1]; omega
+    simp only [List.cons_append, List.nil_append, decodeRune, dec2, e0, e1, hok, if_true, List.length_cons, List.length_nil]
+    rw [if_neg (by omega), if_neg (by omega), if_pos (by omega)]
+    simp only [Prod.mk.injEq, and_true]
+    omega
+  split
+  · rename_i h0 h1 h2
+    simp only [Bool.or_eq_true, decide_eq_true_eq, isSurrogate, Bool.and_eq_true] at h2
+    omega
+  split
+  · rename_i h0 h1 h2 h3
+    have e0 := byte_toNat (0xE0 + r / 4096) (by omega)
+    have e1 := byte_toNat (0x80 + r / 64 % 64) (by omega)
+    have e2 := byte_toNat (0x80 + r % 64) (by omega)
+    have hok : ok3 (0xE0 + r / 4096) (byte (0x80 + r / 64 % 64)) (byte (0x80 + r % 64)) = true := by
+      simp only [ok3_iff, e1, e2, lo3, hi3]
+      split <;> split <;> omega
+    simp only [List.cons_append, List.nil_append, decodeRune, dec3, e0, e1, e2, hok, if_true, List.length_cons, List.length_nil]
+    rw [if_neg (by omega), if_neg (by omega), if_neg (by omega), if_pos (by omega)]
+    simp only [Prod.mk.injEq, and_true]
+    omega
+  · rename_i h0 h1 h2 h3
+    have e0 := byte_toNat (0xF0 + r / 262144) (by omega)
+    have e1 := byte_toNat (0x80 + r / 4096 % 64) (by omega)
+    have e2 := byte_toNat (0x80 + r / 64 % 64) (by omega)
+    have e3 := byte_toNat (0x80 + r % 64) (by omega)
+    have hok : ok4 (0xF0 + r / 262144) (byte (0x80 + r / 4096 % 64)) (byte (0x80 + r / 64 % 64)) (byte (0x80 + r % 64)) = true := by
+      simp only [ok4_iff, e1, e2, e3, lo4, hi4]
+      split <;> split <;> omega
+    simp only [List.cons_append, List.nil_append, decodeRune, dec4, e0, e1, e2, e3, hok, if_true, List.length_cons, List.length_nil]
+    rw [if_neg (by omega), if_neg (by omega), if_neg (by omega), if_neg (by omega), if_pos (by omega)]
+    simp only [Prod.mk.injEq, and_true]
+    omega
+
+private theorem bad_err : badRune (runeError, 1) = true := by
+  simp [badRune]
+
+private theorem enc_dec2 (c : UInt8) (hx1 : 0xC2 ≤ c.toNat) (hx2 : c.toNat < 0xE0) (l : List UInt8)
+    (h : badRune (dec2 c.toNat l) = false) :
+    encodeRune (dec2 c.toNat l).1 = (c :: l).take (dec2 c.toNat l).2 := by
+  unfold dec2 at h ⊢
+  split at h
+  · rename_i b1 t
+    split at h
+    · rename_i hok
+      simp only [if_pos hok]
+      simp only [ok2, isCont_iff] at hok
+      unfold encodeRune
+      rw [if_neg (by omega), if_pos (by omega)]
+      simp only [List.take_succ_cons, List.take_zero]
+      rw [byte_eq _ c (by omega), byte_eq _ b1 (by omega)]
+    · rw [bad_err] at h; cases h
+  · rw [bad_err] at h; cases h
+
+private theorem enc_dec3 (c : UInt8) (hx1 : 0xE0 ≤ c.toNat) (hx2 : c.toNat < 0xF0) (l : List UInt8)
+    (h : badRune (dec3 c.toNat l) = false) :
+    encodeRune (dec3 c.toNat l).1 = (c :: l).take (dec3 c.toNat l).2 := by
+  unfold dec3 at h ⊢
+  split at h
+  · rename_i b1 b2 t
+    split at h
+    · rename_i hok
+      simp only [if_pos hok]
+      simp only [ok3_iff, lo3, hi3] at hok
+      have hr : 0x800 ≤ (c.toNat - 0xE0) * 4096 + (b1.toNat - 0x80) * 64 + (b2.toNat - 0x80) ∧
+          (c.toNat - 0xE0) * 4096 + (b1.toNat - 0x80) * 64 + (b2.toNat - 0x80) < 0x10000 ∧
+          ¬ (0xD800 ≤ (c.toNat - 0xE0) * 4096 + (b1.toNat - 0x80) * 64 + (b2.toNat - 0x80) ∧
+             (c.toNat - 0xE0) * 4096 + (b1.toNat - 0x80) * 64 + (b2.toNat - 0x80) ≤ 0xDFFF) := by
+        split at hok <;> split at hok <;> omega
+      have hb1 : 0x80 ≤ b1.toNat ∧ b1.toNat ≤ 0xBF := by
+        split at hok <;> split at hok <;> omega
+      generalize hrr : (c.toNat - 0xE0) * 4096 + (b1.toNat - 0x80) * 64 + (b2.toNat - 0x80) = r at hr
+      unfold encodeRune
+      rw [if_neg (by omega), if_neg (by omega), if_neg (by simp [isSurrogate]; omega), if_pos (by omega)]
+      simp only [List.take_succ_cons, List.take_zero]
+      rw [byte_eq _ c (by omega), byte_eq _ b1 (by omega), byte_eq _ b2 (by omega)]
+    · rw [bad_err] at h; cases h
+  · rw [bad_err] at h; cases h
+
+private theorem enc_dec4 (c : UInt8) (hx1 : 0xF0 ≤ c.toNat) (hx2 : c.toNat < 0xF5) (l : List UInt8)
+    (h : badRune (dec4 c.toNat l) = false) :
+    encodeRune (dec4 c.toNat l).1 = (c :: l).take (dec4 c.toNat l).2 := by
+  unfold dec4 at h ⊢
+  split at h
+  · rename_i b1 b2 b3 t
+    split at h
+    · rename_i hok
+      simp only [if_pos hok]
+      simp only [ok4_iff, lo4, hi4] at hok
+      have hr : 0x10000 ≤ (c.toNat - 0xF0) * 262144 + (b1.toNat - 0x80) * 4096 + (b2.toNat - 0x80) * 64 + (b3.toNat - 0x80) ∧
+          (c.toNat - 0xF0) * 262144 + (b1.toNat - 0x80) * 4096 + (b2.toNat - 0x80) * 64 + (b3.toNat - 0x80) ≤ 0x10FFFF := by
+        split at hok <;> split at hok <;> omega
+      have hb1 : 0x80 ≤ b1.toNat ∧ b1.toNat ≤ 0xBF := by
+        split at hok <;> split at hok <;> omega
+      generalize hrr : (c.toNat - 0xF0) * 262144 + (b1.toNat - 0x80) * 4096 + (b2.toNat - 0x80) * 64 + (b3.toNat - 0x80) = r at hr
+      unfold encodeRune
+      rw [if_neg (by omega), if_neg (by omega), if_neg (by simp [isSurrogate]; omega), if_neg (by omega)]
+      simp only [List.take_succ_cons, List.take_zero]
+      rw [byte_eq _ c (by omega), byte_eq _ b1 (by omega), byte_eq _ b2 (by omega), byte_eq _ b3 (by omega)]
+    · rw [bad_err] at h; cases h
+  · rw [bad_err] at h; cases h
 
 /-- a well-formed sequence (anything DecodeRune does not answer with (RuneError, ≤1)) is re-encoded byte for byte -/
 theorem encode_decode (c : UInt8) (rest : List UInt8) (h : badRune (decodeRune (c :: rest)) = false) :
     encodeRune (decodeRune (c :: rest)).1 = (c :: rest).take (decodeRune (c :: rest)).2 := by
-  sorry
-
+  simp only [decodeRune] at h ⊢
+  split at h
+  · rename_i h0
+    simp only [if_pos h0]
+    unfold encodeRune
+    rw [if_pos h0, byte_eq _ c rfl]
+    simp
+  rename_i h0
+  rw [if_neg h0]
+  split at h
+  · rw [bad_err] at h; cases h
+  rename_i h1
+  rw [if_neg h1]
+  split at h
+  · rename_i h2
+    rw [if_pos h2]
+    exact enc_dec2 c (by omega) h2 rest h
+  rename_i h2
+  rw [if_neg h2]
+  split at h
+  · rename_i h3
+    rw [if_pos h3]
+    exact enc_dec3 c (by omega) h3 rest h
+  rename_i h3
+  rw [if_neg h3]
+  split at h
+  · rename_i h4
+    rw [if_pos h4]
+    exact enc_dec4 c (by omega) h4 rest h
+  · rw [bad_err] at h; cases h
 end SH.Norm
